@@ -414,7 +414,11 @@ class Exec:
         op = a['op']
         self._quiet_now = False
         n_reqs = len(self.world.reqs)
-        getattr(self, 'op_' + op)(a)
+        if op in ('poll', 'post', 'upg_connect', 'ws_send', 'ws_close', 'ws_fail', 'pong',
+                  'request') and getattr(self.sess(a.get('s')), 'gone_at_accept', False):
+            pass        # a client that was gone before its connection was established does nothing
+        else:
+            getattr(self, 'op_' + op)(a)
         if op != 'advance':
             for r in self.world.reqs[n_reqs:]:
                 r._explicit = True           # issued by the action itself, not by automation
@@ -485,9 +489,17 @@ class Exec:
         s.manual_pongs = 0
         hdrs = [('X-Verif-Open', str(s.ord)), ('Host', 'localhost')]
         if s.kind == 'websocket':
-            s.open_conn = self.world.ws_open('transport=websocket&EIO=4', headers=hdrs)
+            gone = bool(a.get('vanish_at_accept'))
+            s.open_conn = self.world.ws_open('transport=websocket&EIO=4', headers=hdrs,
+                                             fail_accept=gone)
             s.open_conn.role, s.open_conn.sess = 'open', s
             s.main_ws = s.open_conn
+            if gone:
+                # the client vanishes while the server is answering the handshake
+                s.gone_at_accept = True
+                s.vanished = True
+                s.t_vanished = self.now
+                s.client_closed = True
         else:
             s.jsonp = a.get('jsonp')
             s.accept_encoding = a.get('accept_encoding')
@@ -974,6 +986,9 @@ class Drawer:
         oc = d(st.sampled_from(self.profile.get('connect_outcomes', [None])))
         if oc is not None:
             a['connect'] = oc
+        if tr == 'websocket' and self.profile.get('vanish_at_accept_pct') and \
+                d(st.integers(0, 99)) < self.profile['vanish_at_accept_pct']:
+            a['vanish_at_accept'] = True
         fl = self.profile.get('client_flavours')
         if fl and tr == 'polling':
             k = d(st.sampled_from(fl))
